@@ -2,6 +2,7 @@ from propdefs.common import *
 
 PROP = {
     "bin": "c12",
+    "minimize": True,   # harness implements `--only i --keep p0,p1,..` (notes/minimisation.md)
     "coq_targets": ["theories/Flow/C12Check", "theories/Flow/RDProofs"],
     "n": {"quick": 320, "thorough": 8000},
     "theorems": ["rd_sound", "rd_precise", "ud_contains_last_writer", "ud_guards_contain_last_writer", "du_inverse"],
